@@ -75,10 +75,8 @@ def judgeBackend (T n i w : Nat) (valid : Bool) (up : String) (e : Entry) : List
   | some c =>
     (if w = 0 && c != 0 then
       ["zero_weight_gets_traffic:" ++ pos ++ (if c < n then ":remainder" else ":large")] else []) ++
-    (if i + 1 = n then
-      (if 10000 * w ≤ c * T && c * T ≤ 10000 * w + (n - 1) * T then [] else ["tolerance_last"])
-     else
-      (if c * T ≤ 10000 * w && 10000 * w ≤ (c + 1) * T then [] else ["tolerance_nonlast"]))
+    -- per-backend budget (DESIGN.md §8): at most 0.01 below, at most 0.01·(n−1) above 100·w/T
+    (if 10000 * w ≤ (c + 1) * T && c * T ≤ 10000 * w + (n - 1) * T then [] else ["tolerance:" ++ pos])
 
 def judgeBackends (T n : Nat) : Nat → List Nat → List Bool → List String → List Entry → List String
   | i, w :: ws, v :: vs, u :: us, e :: es =>
@@ -105,6 +103,20 @@ def judge (ws : List Nat) (vs : List Bool) (ups : List String) (block : String) 
     else
       judgeBackends T n 0 ws vs ups b.entries ++
       (if sumCents b.entries = 10000 then [] else ["sum_not_100"]))
+
+/-- statistic: the positional reading (non-last backends are floors, the last one absorbs the remainder) -/
+def positional (ws : List Nat) (block : String) : Bool :=
+  let T := ws.sum
+  let n := ws.length
+  match parseBlock block with
+  | none => false
+  | some b =>
+    ((ws.zip b.entries).dropLast.all fun (w, e) =>
+      let c := e.cents.getD 0
+      decide (c * T ≤ 10000 * w) && decide (10000 * w ≤ (c + 1) * T)) &&
+    ((ws.zip b.entries).getLast?.all fun (w, e) =>
+      let c := e.cents.getD 0
+      decide (10000 * w ≤ c * T) && decide (c * T ≤ 10000 * w + (n - 1) * T))
 
 /-- statistic: the stricter reading (every backend within 0.01 of its exact share) -/
 def strictWithin (ws : List Nat) (block : String) : Bool :=
